@@ -632,6 +632,9 @@ class WrappingCollector(Collector):
         self.matcher = self.child.matcher
         self.offset = self.child.offset
 
+    def computes_count(self):
+        return self.child.computes_count()
+
     def all_ids(self):
         return self.child.all_ids()
 
